@@ -93,7 +93,11 @@ def audit(name, fsym, freal, inputs, determinate=True, max_index=8):
         for pr in outcomes:
             s = z3.Solver()
             s.set("timeout", 5000)
-            pool = list(pr.ctx.pool) + [z3.IntVal(i) for i in range(-1, max_index + 2)]
+            extra = set()
+            for a_ in inp:
+                if isinstance(a_, np.ndarray) and a_.dtype.kind in "iu" and a_.size <= 16:
+                    extra |= {int(v) for v in a_.ravel().tolist()}
+            pool = list(pr.ctx.pool) + [z3.IntVal(i) for i in sorted(set(range(-1, max_index + 2)) | extra)]
             hy = list(pr.ctx.hyps) + instantiate(pr.ctx.schemas, core.extend_pool(pool, pr.ctx.derivers))
             s.add(*hy)
             if s.check() != z3.unsat:
@@ -224,6 +228,8 @@ def main(quick=False):
           [(a, v) for a in sorted_A[::9] for v in A[::21] if len(v)])
     audit("argsort (mergesort)", lambda m, x: m.argsort(x, kind="mergesort"), lambda m, x: m.argsort(x, kind="mergesort"), [(x,) for x in A[::2]])
     audit("unique(return_index)", lambda m, x: m.unique(x, return_index=True), lambda m, x: m.unique(x, return_index=True), [(x,) for x in A[::2]])
+    audit("unique(return_counts)", lambda m, x: m.unique(x, return_counts=True), lambda m, x: m.unique(x, return_counts=True), [(x,) for x in A[::3]])
+    audit("argsort (default kind; only sortedness and permutation are specified)", lambda m, x: x[m.argsort(x)], lambda m, x: x[m.argsort(x)], [(x,) for x in A[::3]])
     audit("bincount", lambda m, x, k: m.bincount(x, minlength=k), lambda m, x, k: m.bincount(x, minlength=k), [(x, k) for x in NN[::3] for k in (0, 2, 5)],
           max_index=6)
     audit("fancy assignment a[idx] = v", lambda m, a, i, v: (a.__setitem__(i, v), a)[1], lambda m, a, i, v: (a.__setitem__(i, v), a)[1],
